@@ -278,6 +278,15 @@ fn strace_case(ctx: &Ctx, rng: &mut Rng, out: &mut CaseOut, dir: &Path) {
 }
 
 impl Prop for C16 {
+    fn post(&self, ctx: &Ctx) -> Option<CaseOut> {
+        // thorough tier: the same workload with the real binary under valgrind memcheck
+        if ctx.tier != Tier::Thorough {
+            return None;
+        }
+        let mut out = CaseOut::default();
+        crate::sanit::memcheck_cli(ctx, "C16", &mut out);
+        Some(out)
+    }
     fn id(&self) -> &'static str {
         "C16"
     }
